@@ -40,6 +40,7 @@ type Frame struct {
 	ncall     int
 	inheritedWC []*writeConstraint
 	funcWC    *writeConstraint
+	rangeStart map[*ssa.Range][2]*Term
 }
 
 type deferRec struct {
@@ -180,7 +181,7 @@ func (fc *FnCtx) newFrame(fn *ssa.Function, parent *Frame, path string) *Frame {
 	fr := &Frame{fc: fc, fn: fn, env: map[ssa.Value]Val{}, path: path, parent: parent,
 		out: map[*ssa.BasicBlock]*State{}, ins: map[*ssa.BasicBlock][]inEdge{}, loopOf: map[*ssa.BasicBlock]*Loop{},
 		nonnil: map[string]*ssa.BasicBlock{}, freeBind: map[*ssa.FreeVar]Val{}, closures: map[ssa.Value]*ssa.MakeClosure{},
-		rangeKeySort: map[ssa.Value]Sort{}}
+		rangeKeySort: map[ssa.Value]Sort{}, rangeStart: map[*ssa.Range][2]*Term{}}
 	if parent != nil {
 		fr.depth = parent.depth + 1
 	}
